@@ -109,18 +109,18 @@ def check_case(case):
         pass
     if s.get_sys_phases() != dict(phases):
         res.v(("C06.rejected-phase-definition-took-effect",), "phases now %r" % (s.get_sys_phases(),))
-    df, _ = quiet_call(s.solve, ta=-15.0)
+    df, _ = quiet_call(s.solve, ta=-15.0, energy=True)
     configured = any(a is not None for a in case["assign"])
     sleepers = False
     for ph in phases:
         # (b) single-phase call == rows of that phase
         try:
-            d1, _ = quiet_call(s.solve, phase=ph, ta=-15.0)
+            d1, _ = quiet_call(s.solve, phase=ph, ta=-15.0, energy=True)   # incl. the 24 h energy column: a phase keeps its share of the day
             sub = df[df["Phase"] == ph].reset_index(drop=True)
             # a column that is blank for every row of this phase (temperature columns of a phase without any rise) counts as absent
             sub = sub[[c for c in sub.columns if any(x != "" for x in sub[c].tolist())]]
             d1 = d1[[c for c in d1.columns if any(x != "" for x in d1[c].tolist())]]
-            same = list(d1.columns) == list(sub.columns) and len(d1) == len(sub) and all(
+            same = sorted(d1.columns) == sorted(sub.columns) and len(d1) == len(sub) and all(   # column ORDER is not part of the contract
                 cells_equal(a, b) for col in d1.columns for a, b in zip(d1[col].tolist(), sub[col].tolist()))
             if not same:
                 res.v(("C06.single-phase-rows",), "solve(phase=%r) differs from the rows of that phase" % ph)
